@@ -1,7 +1,7 @@
 import HcModel.Handover
 /-
   Driver op for the hand-over model:  handover run <version 0|1|2> <op> …   op := readStart | setCrypt | writeResp | peerSends | readDone
-  Answer: `resp=<plain|enc|none> delivered=<dec|plain|none> closed=<0|1> foreign=<0|1>`   (version 0: original code, 1: after the F18 repair, 2: after F18 and F19)
+  Answer: `resp=<plain|enc|none> delivered=<dec|plain|none> closed=<0|1> foreign=<0|1>`   events=<n written> queued=<n kept back>` (version 0: original code, 1: after the F18 repair, 2: after F18 and F19, 3: after F31 as well)
 -/
 namespace Hc.Drv.Handover
 open Hc.Handover
@@ -14,6 +14,7 @@ def pOp : String → Option Op
   | "readDone" => some .readDone
   | "excess" => some .excess
   | "foreign" => some .foreign
+  | "event" => some .event
   | _ => none
 
 def handle : List String → String
@@ -21,10 +22,10 @@ def handle : List String → String
     match ops.mapM pOp with
     | none => "bad-op"
     | some os =>
-      let s := run (f != "0") (f == "2") os
+      let s := run (f != "0") (f == "2" || f == "3") (f == "3") os
       let r := match s.respEncrypted with | none => "none" | some true => "enc" | some false => "plain"
       let d := match s.delivered with | none => "none" | some true => "dec" | some false => "plain"
-      s!"resp={r} delivered={d} closed={if s.closed then 1 else 0} foreign={if s.foreignPlain then 1 else 0}"
+      s!"resp={r} delivered={d} closed={if s.closed then 1 else 0} foreign={if s.foreignPlain then 1 else 0} events={s.evOut} queued={s.queued}"
   | _ => "bad-op"
 
 end Hc.Drv.Handover
